@@ -177,22 +177,46 @@ frame_long!(frame_df18_tc11, 0x92, Some(0x58), false);
 frame_long!(frame_df18_tc19, 0x90, Some(0x99), false);
 
 // ---------------------------------------------------------------- (c) length discipline
-harness! {
-    #[kani::unwind(34)]
-    #[kani::stub(alloc::fmt::format, crate::stubs::fmt_stub)]
-    /// ANY first byte (all 32 downlink formats), any content, any length shorter than the format
-    /// prescribes (0..=6 for short, 0..=13 for long formats): an error, never a panic
-    fn len_too_short(s) {
-        let buf: [u8; 14] = s.bytes();
-        let len = s.below(14) as usize;
-        vassume!(len < expect_len(buf[0]));
-        let r = Message::try_from(&buf[..len]);
-        vcover!(len == 13);
-        vcover!(len == 0);
-        vassert!(r.is_err(), "a frame shorter than its downlink format prescribes is an error");
-        core::mem::forget(r);
-    }
+// The first byte is concrete per harness and the length a concrete loop variable: with a symbolic
+// first byte (or length) CBMC cannot decide the reader's "not enough data" branch during symbolic
+// execution and enters every downlink-format arm behind it (out of memory at 9 GB, measured twice).
+macro_rules! len_cut {
+    ($name:ident, $b0:expr) => {
+        harness! {
+            #[kani::unwind(34)]
+            #[kani::stub(alloc::fmt::format, crate::stubs::fmt_stub)]
+            /// this first byte, any content, cut to EVERY length shorter than the downlink format
+            /// prescribes (0..=6 for short, 0..=13 for long formats): an error, never a panic
+            fn $name(s) {
+                let mut buf: [u8; 14] = s.bytes();
+                buf[0] = $b0;
+                let want = expect_len($b0);
+                let mut len = 0usize;
+                while len < want {
+                    let r = Message::try_from(&buf[..len]);
+                    vcover!(r.is_err());
+                    vassert!(r.is_err(), "a frame shorter than its downlink format prescribes is an error");
+                    core::mem::forget(r);
+                    len += 1;
+                }
+            }
+        }
+    };
 }
+len_cut!(len_cut_df00, 0x02);
+len_cut!(len_cut_df01, 0x08);
+len_cut!(len_cut_df04, 0x20);
+len_cut!(len_cut_df05, 0x28);
+len_cut!(len_cut_df11, 0x5d);
+len_cut!(len_cut_df14, 0x77);
+len_cut!(len_cut_df16, 0x80);
+len_cut!(len_cut_df17, 0x8d);
+len_cut!(len_cut_df18, 0x90);
+len_cut!(len_cut_df19, 0x98);
+len_cut!(len_cut_df20, 0xa0);
+len_cut!(len_cut_df21, 0xa8);
+len_cut!(len_cut_df24, 0xc0);
+len_cut!(len_cut_df31, 0xff);
 
 harness! {
     #[kani::unwind(34)]
@@ -230,10 +254,87 @@ harness! {
     }
 }
 
-registry!(frame_df0, frame_df4, frame_df5, frame_df11, frame_df11_ca0, frame_df16, frame_df19, frame_df24,
+
+// ---------------------------------------------------------------- (f) Comm-B selector glue (DF20 / DF21)
+// Whole DF20/DF21 frames through Message::try_from are out of reach (DESIGN 7.2).  The selector readers
+// of commb.rs are called directly on EVERY 56-bit MB field; the register hypotheses other than BDS 0,5
+// are contract stubs (selstubs.rs: reject, or accept with a sample value, nondeterministically, recording
+// the choice), each register's own reader being decided on all 2^56 payloads by total_bdsNN above.
+macro_rules! selector_checks {
+    ($sel:ident, $a:ident, $zero:ident) => {
+        vassert!($sel.is_empty == $zero, "is_empty exactly for the all-zero MB field");
+        if $zero {
+            vassert!($sel.bds05.is_none() && $sel.bds10.is_none() && $sel.bds17.is_none() && $sel.bds18.is_none() && $sel.bds19.is_none()
+                     && $sel.bds20.is_none() && $sel.bds21.is_none() && $sel.bds30.is_none() && $sel.bds40.is_none() && $sel.bds44.is_none()
+                     && $sel.bds45.is_none() && $sel.bds50.is_none() && $sel.bds60.is_none() && $sel.bds65.is_none(), "an empty MB field carries no register");
+        }
+        if $sel.bds65.is_some() { vassert!(($a[0] >> 3) == 31 && ($a[0] & 7) < 2, "BDS 6,5 only for type code 31, category 0 or 1"); }
+        #[cfg(kani)]
+        {
+            let acc = unsafe { crate::selstubs::ACCEPTED };
+            let called = unsafe { crate::selstubs::CALLED };
+            if !$zero {
+                vassert!($sel.bds10.is_some() == ((acc >> 1) & 1 == 1) && $sel.bds17.is_some() == ((acc >> 2) & 1 == 1)
+                         && $sel.bds18.is_some() == ((acc >> 3) & 1 == 1) && $sel.bds19.is_some() == ((acc >> 4) & 1 == 1)
+                         && $sel.bds20.is_some() == ((acc >> 5) & 1 == 1) && $sel.bds21.is_some() == ((acc >> 6) & 1 == 1)
+                         && $sel.bds30.is_some() == ((acc >> 7) & 1 == 1) && $sel.bds40.is_some() == ((acc >> 8) & 1 == 1)
+                         && $sel.bds44.is_some() == ((acc >> 9) & 1 == 1) && $sel.bds45.is_some() == ((acc >> 10) & 1 == 1)
+                         && $sel.bds50.is_some() == ((acc >> 11) & 1 == 1) && $sel.bds60.is_some() == ((acc >> 12) & 1 == 1)
+                         && $sel.bds65.is_some() == ((acc >> 13) & 1 == 1), "the selector stores exactly the hypotheses that accepted the payload");
+                vassert!(called & 0x1ffe == 0x1ffe, "every register hypothesis is offered a non-empty payload");
+            } else {
+                vassert!(called == 0, "no hypothesis is tried on an empty MB field");
+            }
+            if (called >> 13) & 1 == 1 { vassert!(($a[0] >> 3) == 31 && ($a[0] & 7) < 2, "BDS 6,5 is tried only for type code 31, category 0 or 1"); }
+        }
+    };
+}
+with_selector_stubs! {
+    /// DF20 selector on EVERY 56-bit MB field and every header altitude: never fails, never panics
+    /// (BDS 0,5 is the real reader), and stores exactly the accepted hypotheses
+    fn selector_df20(s) {
+        let a: [u8; 7] = s.bytes();
+        let ac = s.u16();
+        #[cfg(kani)]
+        unsafe { crate::selstubs::ACCEPTED = 0; crate::selstubs::CALLED = 0; }
+        let mut cur = deku::no_std_io::Cursor::new(&a[..]);
+        let mut reader = Reader::new(&mut cur);
+        let r = rs1090::decode::commb::DF20DataSelector::from_reader_with_ctx(&mut reader, rs1090::decode::AC13Field(ac));
+        vcover!(matches!(&r, Ok(x) if x.bds40.is_some() && x.bds50.is_some() && x.bds05.is_some()));
+        vcover!(matches!(&r, Ok(x) if x.is_empty));
+        vassert!(r.is_ok(), "the selector never fails on 56 bits");
+        if let Ok(sel) = &r {
+            let zero = a[0] == 0 && a[1] == 0 && a[2] == 0 && a[3] == 0 && a[4] == 0 && a[5] == 0 && a[6] == 0;
+            selector_checks!(sel, a, zero);
+        }
+        core::mem::forget(r);
+    }
+}
+with_selector_stubs! {
+    /// DF21 selector on EVERY 56-bit MB field: same, and it never labels a payload as BDS 0,5
+    fn selector_df21(s) {
+        let a: [u8; 7] = s.bytes();
+        #[cfg(kani)]
+        unsafe { crate::selstubs::ACCEPTED = 0; crate::selstubs::CALLED = 0; }
+        let mut cur = deku::no_std_io::Cursor::new(&a[..]);
+        let mut reader = Reader::new(&mut cur);
+        let r = rs1090::decode::commb::DF21DataSelector::from_reader_with_ctx(&mut reader, ());
+        vcover!(matches!(&r, Ok(x) if x.bds40.is_some() && x.bds50.is_some()));
+        vcover!(matches!(&r, Ok(x) if x.is_empty));
+        vassert!(r.is_ok(), "the selector never fails on 56 bits");
+        if let Ok(sel) = &r {
+            let zero = a[0] == 0 && a[1] == 0 && a[2] == 0 && a[3] == 0 && a[4] == 0 && a[5] == 0 && a[6] == 0;
+            vassert!(sel.bds05.is_none(), "DF21 never labels a payload as an airborne position");
+            selector_checks!(sel, a, zero);
+        }
+        core::mem::forget(r);
+    }
+}
+
+registry!(selector_df20, selector_df21, frame_df0, frame_df4, frame_df5, frame_df11, frame_df11_ca0, frame_df16, frame_df19, frame_df24,
           frame_df17_tc00, frame_df17_tc04, frame_df17_tc07, frame_df17_tc11, frame_df17_tc19_st1, frame_df17_tc19_st0,
           frame_df17_tc28, frame_df17_tc29, frame_df17_tc31_v0, frame_df17_tc31_r2, frame_df17_tc23, frame_df18_tc11, frame_df18_tc19,
-          len_too_short, len_df11, determinism_df11,
+          len_cut_df00, len_cut_df01, len_cut_df04, len_cut_df05, len_cut_df11, len_cut_df14, len_cut_df16, len_cut_df17, len_cut_df18, len_cut_df19, len_cut_df20, len_cut_df21, len_cut_df24, len_cut_df31, len_df11, determinism_df11,
           total_bds05, total_bds06, total_bds08, total_bds09, total_bds61, total_bds62, total_bds65,
           total_bds10, total_bds17, total_bds18, total_bds19, total_bds20, total_bds21, total_bds30,
           total_bds40, total_bds44, total_bds45, total_bds50, total_bds60, total_bds05_commb, total_bds65_commb,
